@@ -103,7 +103,16 @@ Definition handle (auth : option authenticator) (p : policy) (raw : option (list
   | Allow _ =>
     match dispatch is_connect authority with
     | RHealth => ok_answer false
-    | RUdp | RIcmp => ok_answer true
+    | RUdp => ok_answer true
+    | RIcmp =>
+      (* [o] = COk: the ICMP forwarder is set up and a multiplexer could be made. Otherwise the request is refused before any
+         answer (ICMP_REFUSED_WHEN_NOT_SET_UP); as found, 200 had already been sent when the forwarder turned out to be absent *)
+      if ICMP_REFUSED_WHEN_NOT_SET_UP
+      then match o with
+           | COk => ok_answer true
+           | _ => {| a_status := 502; a_challenge := false; a_warning := 0; a_names_host := false; a_egress := false |}
+           end
+      else ok_answer true
     | RRefused => {| a_status := 502; a_challenge := false; a_warning := 0; a_names_host := false; a_egress := false |}
     | RConnect =>
       match authority with
